@@ -125,6 +125,10 @@ def r1_best(repo, report):
     report.ob("C09.R1", "MultipleAdapters.match_to selection", not mism, facts={"rows": len(rows), "mismatches": mism[:4]},
               expected="replace iff first, higher score, or equal score and fewer errors (first wins full ties)", loc=repo.loc(lp), cases=n,
               why=(f"for {mism[0]['inputs']} the code does '{mism[0]['code']}', expected '{mism[0]['expected']}'" if mism else ""))
+    early = sorted({r.exit[0] for r in rows if r.exit[0] in ("break", "return", "raise")})
+    report.ob("C09.R1", "MultipleAdapters.match_to tries every adapter", not early, facts={"exits_of_the_loop_body": sorted({r.exit[0] for r in rows})}, loc=repo.loc(lp),
+              expected="the loop over the adapters has no break/return: a later adapter may still have a higher score",
+              why=(f"the loop body can end with '{early[0]}': adapters listed after that point are not tried, so an adapter with a strictly higher score loses to an earlier one" if early else ""))
     searched = sorted({c[0] for r in rows for c in r.calls if c[2].endswith(".match_to")})
     report.ob("C09.R1", "MultipleAdapters.match_to order and argument", it == "self._adapters" and searched == ["ADAPTER.match_to(SEQ)"], facts={"iterates": src(lp.iter), "calls": searched},
               expected="for adapter in self._adapters: adapter.match_to(sequence)", loc=repo.loc(lp))
